@@ -304,6 +304,63 @@ SITES = [
 ]
 
 
+def _stores_into(attr_or_name):
+    """sink finder: the value stored by `<X>[k] = value` where X is the local / attribute named `attr_or_name`"""
+    def find(fn):
+        out = []
+        for n in ast.walk(fn):
+            if isinstance(n, ast.Assign) and len(n.targets) == 1 and isinstance(n.targets[0], ast.Subscript):
+                base = n.targets[0].value
+                nm = base.id if isinstance(base, ast.Name) else (base.attr if isinstance(base, ast.Attribute) else None)
+                if nm == attr_or_name:
+                    out.append((n.value, n))
+        return sorted(out, key=lambda x: (x[1].lineno, x[1].col_offset))
+    return find
+
+
+def _rels_reads(ordinal_of_interest):
+    """sink finder: the argument of the k-th `read_xml_root(...)` call of the function (source order)"""
+    def find(fn):
+        calls = sorted([n for n in ast.walk(fn) if isinstance(n, ast.Call) and isinstance(n.func, ast.Attribute) and n.func.attr == "read_xml_root" and n.args],
+                       key=lambda n: (n.lineno, n.col_offset))
+        return [(calls[ordinal_of_interest].args[0], calls[ordinal_of_interest])] if len(calls) > ordinal_of_interest else []
+    return find
+
+
+def _arg_of_store_value(attr):
+    """sink finder: `self.<attr>[k] = self.read_xml_root(E)`: the expression E"""
+    def find(fn):
+        out = []
+        for (v, n) in _stores_into(attr)(fn):
+            if isinstance(v, ast.Call) and isinstance(v.func, ast.Attribute) and v.func.attr == "read_xml_root" and v.args:
+                out.append((v.args[0], n))
+        return out
+    return find
+
+
+def _has_dir(name):
+    return lambda c: z3.Contains(c.args[name].t, z3.StringVal("/"))
+
+
+SHEET_PART = z3.Function("xlsx_sheet_part_of_tab", z3.IntSort(), z3.StringSort())     # part name of the k-th sheet (workbook.xml + its relationships)
+
+SITES += [
+    # presentation -> slide relationship targets: lost slides lose their pictures
+    dict(rel=PPTX, fn="_PptxContext._compute_slide_order", sink=_stores_into("rels_map"), keys=("target",), base=("const", "ppt"), label="slide-part",
+         why="source part = ppt/presentation.xml"),
+    # relationship part of a slide / a drawing / a sheet: <dir>/_rels/<name>.rels (OPC)
+    dict(rel=PPTX, fn="_PptxContext._load_xml_files", sink=_arg_of_store_value("_slide_rels_roots"), keys=("target",), need_target=False, extra=["slide_path"],
+         spec=lambda c: SP.RELS_PART(c.args["slide_path"].t), requires=_has_dir("slide_path"), label="slide-relationship-part",
+         why="relationship part of the slide part"),
+    dict(rel=XLSX, fn="_extract_images_from_zip", sink=_rels_reads(1), keys=("target",), need_target=False, extra=["drawing_path"],
+         spec=lambda c: SP.RELS_PART(c.args["drawing_path"].t), requires=_has_dir("drawing_path"), label="drawing-relationship-part",
+         why="relationship part of the drawing part"),
+    dict(rel=XLSX, fn="_extract_images_from_zip", sink=_rels_reads(0), keys=("target",), need_target=False, extra=["sheet_idx"], int_params=("sheet_idx",),
+         spec=lambda c: SP.RELS_PART(SHEET_PART(c.args["sheet_idx"].t)), label="sheet-relationship-part",
+         why="relationship part of the part that workbook.xml names for the k-th sheet"),
+]
+
+
 def _unvalidated_to_unknown(o):
     """A solver model of a VC over uninterpreted spec functions (SEGS / FOLD / JOINS / jpeg chain) is not a refutation
     (DESIGN 2.5.3b): the obligation stays open and goes to the native small-scope search (REPLAY_UNKNOWN)."""
@@ -335,19 +392,22 @@ def run_site(site, repo, reg=None, uni=None):
         for c in contracts(reg):
             reg.add(c)
         uni = Universe(repo)
-    sinks = F.method_calls(fn, site["sinks"])
+    if "sink" in site:
+        sinks = site["sink"](fn)            # [(expression, node at which it is evaluated)]
+    else:
+        sinks = [(call.args[0], call) for call in F.method_calls(fn, site["sinks"])]
     obls = []
     if not sinks:
-        obls.append(ground_obligation(base_id, False, f"no {site['sinks']} call found: shape not recognised", rel, kind="resolution", definite=False))
+        obls.append(ground_obligation(base_id, False, f"no {site.get('sinks', 'sink')} found: shape not recognised", rel, kind="resolution", definite=False))
     keys = site["keys"]
-    for k, call in enumerate(sinks):
+    for k, (sink_expr, call) in enumerate(sinks):
         oid = f"{base_id}-{k}" if len(sinks) > 1 else base_id
-        extra = [site["base"][1]] if site["base"][0] in ("dirname", "field") else []
-        f, sl = F.build_slice_function(fn, call.args[0], call, lambda e: F.is_lookup_of(e, keys), extra_params=extra, extra_sources=extra)
+        extra = list(site.get("extra", [])) + ([site["base"][1]] if site.get("base", ("",))[0] in ("dirname", "field") else [])
+        f, sl = F.build_slice_function(fn, sink_expr, call, lambda e: F.is_lookup_of(e, keys), extra_params=extra, extra_sources=extra)
         if f is None:
             obls.append(ground_obligation(oid, False, f"slice not computable: {sl.why}", rel, kind="resolution", definite=False))
             continue
-        if "__target" not in sl.sources:
+        if "__target" not in sl.sources and site.get("need_target", True):
             obls.append(ground_obligation(oid, False, "the name read does not depend on a relationship target / href", rel, kind="resolution", definite=False))
             continue
         # the slice equates a value read from a local lookup table with the expression stored into it: valid only if the table
@@ -363,11 +423,16 @@ def run_site(site, repo, reg=None, uni=None):
             m = makers.get(a.arg)
             if m is not None and m[0] == "obj":
                 params.append((a.arg, p_obj(m[1], {fld: p_str() for fld in m[2]})))
+            elif a.arg in site.get("int_params", ()):
+                from pyvc.verify import p_int
+                params.append((a.arg, p_int(0, None)))
             else:
                 params.append((a.arg, p_str()))
-        b = site["base"]
+        b = site.get("base", ("spec",))
 
         def returns(c, b=b):
+            if "spec" in site:
+                return VStr(site["spec"](c))
             t = c.args["__target"].t
             if b[0] == "const":
                 base = z3.StringVal(b[1])
@@ -376,7 +441,7 @@ def run_site(site, repo, reg=None, uni=None):
             else:
                 base = c.entry.obj(c.args[b[1]].ref).data[b[2]].t
             return VStr(SP.RESOLVE(base, t))
-        c = FnContract(target=f"{rel}::{fname}", params=params, returns=returns, raises=[Raises("Exception", sub=True)])
+        c = FnContract(target=f"{rel}::{fname}", params=params, returns=returns, requires=site.get("requires"), raises=[Raises("Exception", sub=True)])
         ex = C14Executor(mod, reg, uni)
         ex.contract = c
         ex.oid_prefix = "slice"
